@@ -2,25 +2,47 @@
 
     A wallet operation is a program over a small key/value store (buckets of
     byte-string keys, here lists of integers).  Programs are terms of a free
-    monad whose only effects are
+    monad whose effects are
       - [Read r]    any read-only query of the store (Get, cursor scans, ...),
       - [Write w c] ONE mutating call (Put, Delete, CreateBucket, ...),
       - [Fail c]    the operation gives up with an error of its own,
+      - [Call site p d]  the call of a Go function whose body is [p], made at
+                    the call site [site]; WHAT THE CALLER DOES WITH THE ERROR
+                    the callee returns is not decided here: it is looked up in
+                    a table [site -> disp] (Generated/ErrFlow.v, regenerated
+                    from the Go source on every run),
     glued by [Bind].  Because the continuation of [Bind] is a Gallina function,
     the language contains sequences, conditionals on values read from the
     store, bounded loops over lists read from the store ([for_each],
     [fold_prog]) and fuel-bounded recursion - the shapes wtxmgr and waddrmgr
-    use.  There is NO construct that catches an error: that every error
-    returned by a write is propagated by the Go code is a fact about the source,
-    regenerated into Generated/ErrFlow.v and required by Properties/C10.v.
+    use.
 
-    [run p s n f]: [s] the store, [n] the number of mutating calls made so far
-    in the enclosing transaction, [f = Some k] makes the mutating call number
-    [k] (counted from 0) fail with [Injected] without touching the store.
+    Error handling.  [Bind] passes an error on (that is Go's
+    `if err != nil { return err }` WHEN THE TABLE SAYS SO): every place where
+    the Go code receives an error that may stem from a database write is a
+    [Call], and the semantics of [Call] follows the disposition of its site:
+      Propagated        the error is returned to the caller's caller;
+      DroppedReturn     `if err != nil { return nil }`: the enclosing function
+                        returns success at once ([Err Swallowed] travels up to
+                        the [Call] that encloses the function body and becomes
+                        [Ok] there);
+      DroppedContinue   `_ = f()` / `f()` / err overwritten: execution goes on
+                        as if the call had succeeded (with the zero value [d]);
+      DeferredDrop, LoggedReturn, LoggedContinue, Unknown: as the matching
+                        Dropped flavour (Unknown: Continue).
+    So a table with a non-propagating site makes the model itself produce the
+    bad run - [Ok] after a strict prefix of the writes - and the theorems of
+    FaultProofs.v hold for a program exactly under the hypothesis that every
+    site it uses is Propagated in the table.
+
+    [run T p s n f]: [T] the table, [s] the store, [n] the number of mutating
+    calls made so far in the enclosing transaction, [f = Some k] makes the
+    mutating call number [k] (counted from 0) fail with [Injected] without
+    touching the store.
 
     This file holds executable definitions only; proofs are in FaultProofs.v. *)
 From stdpp Require Import gmap.
-From Coq Require Import ZArith List.
+From Coq Require Import ZArith List String.
 Import ListNotations.
 Local Open Scope Z_scope.
 
@@ -31,7 +53,8 @@ Definition kv := gmap Z bucket.
 
 Inductive err :=
 | Injected          (* the sentinel error of the failed write *)
-| OpErr (c : Z).    (* any error the operation or the backend reports itself *)
+| OpErr (c : Z)     (* any error the operation or the backend reports itself *)
+| Swallowed.        (* internal: "the enclosing function returns nil now" *)
 
 Inductive result (A : Type) :=
 | Ok (a : A)
@@ -42,7 +65,112 @@ Arguments Err {A} e.
 Definition is_ok {A} (r : result A) : bool :=
   match r with Ok _ => true | Err _ => false end.
 
-(** The state + error monad of the design note (A.4). *)
+(** ** Call sites and their dispositions *)
+
+(** A site is named as the extractor names it:
+    "<package>:<function>><callee>" (all calls of <callee> made by <function>
+    are one site; its disposition is the worst of them).  The empty name is
+    the harness's own call of an API function (propagated by construction). *)
+Definition site := string.
+
+Inductive disp :=
+| Propagated | DroppedReturn | DroppedContinue | DeferredDrop
+| LoggedReturn | LoggedContinue | Unknown.
+
+Inductive action := Propagate | ReturnNil | Continue.
+
+Definition on_err (d : disp) : action :=
+  match d with
+  | Propagated => Propagate
+  | DroppedReturn | LoggedReturn => ReturnNil
+  | DroppedContinue | DeferredDrop | LoggedContinue | Unknown => Continue
+  end.
+
+Definition propagates (d : disp) : bool :=
+  match d with Propagated => true | _ => false end.
+
+Definition table := site -> disp.
+
+(** the table in which every site propagates (the reading DESIGN A.4 started from) *)
+Definition all_propagate : table := fun _ => Propagated.
+
+(** Generated/ErrFlow.v lists (site, code); a site that is NOT in the list
+    belongs to a function the transcription knows under a name the source no
+    longer has (restructured code): it is then judged by the whole-package
+    condition [whole] = "no site of the table fails to propagate". *)
+Definition disp_of_code (c : N) : disp :=
+  match c with
+  | 0%N => Propagated
+  | 1%N => DroppedReturn
+  | 2%N => DroppedContinue
+  | 3%N => DeferredDrop
+  | 4%N => LoggedReturn
+  | 5%N => LoggedContinue
+  | _ => Unknown
+  end.
+
+Fixpoint assoc_site (s : site) (rows : list (string * N)) : option N :=
+  match rows with
+  | [] => None
+  | (s', c) :: rest => if String.eqb s s' then Some c else assoc_site s rest
+  end.
+
+Definition rows_all_propagate (rows : list (string * N)) : bool :=
+  forallb (fun r => propagates (disp_of_code (snd r))) rows.
+
+(** the rows as a trie over the characters of the site ids (the ids share
+    long prefixes; a lookup walks the id once) - [trie_find s (trie_of rows)]
+    is [assoc_site s rows] for rows without duplicate ids, as the generator
+    emits them; the evaluation of the correspondence makes some 10^5 lookups *)
+Inductive trie := TNode (v : option N) (kids : list (Ascii.ascii * trie)).
+Definition trie_empty : trie := TNode None [].
+Fixpoint kid_update (c : Ascii.ascii) (f : trie -> trie) (kids : list (Ascii.ascii * trie)) : list (Ascii.ascii * trie) :=
+  match kids with
+  | [] => [(c, f trie_empty)]
+  | (c', t) :: rest => if Ascii.eqb c c' then (c', f t) :: rest else (c', t) :: kid_update c f rest
+  end.
+Fixpoint trie_insert (s : string) (x : N) (t : trie) : trie :=
+  match s, t with
+  | EmptyString, TNode (Some y) kids => TNode (Some y) kids          (* the first row wins, as in assoc_site *)
+  | EmptyString, TNode None kids => TNode (Some x) kids
+  | String c r, TNode v kids => TNode v (kid_update c (trie_insert r x) kids)
+  end.
+Fixpoint kid_find (c : Ascii.ascii) (kids : list (Ascii.ascii * trie)) : option trie :=
+  match kids with
+  | [] => None
+  | (c', t) :: rest => if Ascii.eqb c c' then Some t else kid_find c rest
+  end.
+Fixpoint trie_find (s : string) (t : trie) : option N :=
+  match s, t with
+  | EmptyString, TNode v _ => v
+  | String c r, TNode _ kids => match kid_find c kids with Some t' => trie_find r t' | None => None end
+  end.
+Definition trie_of (rows : list (string * N)) : trie :=
+  fold_left (fun t r => trie_insert (fst r) (snd r) t) rows trie_empty.
+
+Definition table_of (rows : list (string * N)) : table :=
+  let t := trie_of rows in
+  let whole := rows_all_propagate rows in
+  fun s =>
+  match s with
+  | EmptyString => Propagated
+  | _ =>
+    match trie_find s t with
+    | Some c => disp_of_code c
+    | None => if whole then Propagated else Unknown
+    end
+  end.
+
+Definition site_in_rows (rows : list (string * N)) (s : site) : bool :=
+  String.eqb s "" || match assoc_site s rows with Some _ => true | None => false end.
+
+Definition sites_ok (T : table) (L : list site) : bool :=
+  forallb (fun s => propagates (T s)) L.
+
+Definition mem_site (s : site) (L : list site) : bool := existsb (String.eqb s) L.
+Definition incl_sites (L L' : list site) : bool := forallb (fun s => mem_site s L') L.
+
+(** ** The state + error monad of the design note (A.4). *)
 Definition M (A : Type) : Type := kv -> nat -> option nat -> result A * kv * nat.
 
 Definition hits (n : nat) (f : option nat) : bool :=
@@ -59,11 +187,23 @@ Definition m_write (w : kv -> option kv) (c : Z) : M unit := fun s n f =>
        | Some s' => (Ok tt, s', S n)
        | None => (Err (OpErr c), s, S n)
        end.
-(** [bind] propagates errors. *)
+(** [bind] passes errors on. *)
 Definition m_bind {A B} (m : M A) (g : A -> M B) : M B := fun s n f =>
   match m s n f with
   | (Ok a, s1, n1) => g a s1 n1 f
   | (Err e, s1, n1) => (Err e, s1, n1)
+  end.
+(** the error of a call, handled as the caller handles it *)
+Definition m_call {A} (d : disp) (m : M A) (dflt : A) : M A := fun s n f =>
+  match m s n f with
+  | (Ok a, s1, n1) => (Ok a, s1, n1)
+  | (Err Swallowed, s1, n1) => (Ok dflt, s1, n1)      (* the callee returned nil early *)
+  | (Err e, s1, n1) =>
+    match on_err d with
+    | Propagate => (Err e, s1, n1)
+    | ReturnNil => (Err Swallowed, s1, n1)
+    | Continue => (Ok dflt, s1, n1)
+    end
   end.
 
 (** The language of operation bodies. *)
@@ -72,21 +212,43 @@ Inductive prog : Type -> Type :=
 | Fail {A} (c : Z) : prog A
 | Read {A} (r : kv -> A) : prog A
 | Write (w : kv -> option kv) (c : Z) : prog unit
-| Bind {A B} (p : prog A) (g : A -> prog B) : prog B.
+| Bind {A B} (p : prog A) (g : A -> prog B) : prog B
+| Call {A} (st : site) (p : prog A) (dflt : A) : prog A.
 
-Fixpoint run {A} (p : prog A) : M A :=
+Fixpoint run (T : table) {A} (p : prog A) : M A :=
   match p with
   | Ret a => m_ret a
   | Fail c => m_fail c
   | Read r => m_read r
   | Write w c => m_write w c
-  | Bind p g => m_bind (run p) (fun a => run (g a))
+  | Bind p g => m_bind (run T p) (fun a => run T (g a))
+  | Call st p d => m_call (T st) (run T p) d
+  end.
+
+(** every site the program can reach is in [L] (a fact about the
+    transcription alone, independent of any table) *)
+Fixpoint uses_only (L : list site) {A} (p : prog A) : Prop :=
+  match p with
+  | Bind p g => uses_only L p /\ forall a, uses_only L (g a)
+  | Call st p _ => mem_site st L = true /\ uses_only L p
+  | _ => True
+  end.
+
+(** every site the program can reach propagates in [T] *)
+Fixpoint sites_propagate (T : table) {A} (p : prog A) : Prop :=
+  match p with
+  | Bind p g => sites_propagate T p /\ forall a, sites_propagate T (g a)
+  | Call st p _ => propagates (T st) = true /\ sites_propagate T p
+  | _ => True
   end.
 
 Notation "x <- p ;; q" := (Bind p (fun x => q))
   (at level 65, p at next level, right associativity).
 Notation "p ;;; q" := (Bind p (fun _ => q))
   (at level 65, right associativity).
+
+(** a call of a function that returns only an error *)
+Definition call (st : site) (p : prog unit) : prog unit := Call st p tt.
 
 (** Bounded loops. *)
 Fixpoint for_each {X} (l : list X) (body : X -> prog unit) : prog unit :=
@@ -102,16 +264,22 @@ Fixpoint fold_prog {X S} (l : list X) (acc : S) (body : S -> X -> prog S) : prog
   end.
 
 (** Number of mutating calls of the fault-free run, and its outcome. *)
-Definition clean {A} (p : prog A) (s : kv) : result A * kv * nat := run p s O None.
-Definition writes {A} (p : prog A) (s : kv) : nat := snd (clean p s).
+Definition clean (T : table) {A} (p : prog A) (s : kv) : result A * kv * nat := run T p s O None.
+Definition writes (T : table) {A} (p : prog A) (s : kv) : nat := snd (clean T p s).
 
 (** walletdb.Update around an operation: commit on success, discard the
     working copy on error (that Update itself is all-or-nothing is C11). *)
-Definition update {A} (p : prog A) (s : kv) (f : option nat) : result A * kv :=
-  match run p s O f with
+Definition update (T : table) {A} (p : prog A) (s : kv) (f : option nat) : result A * kv :=
+  match run T p s O f with
   | (Ok a, s', _) => (Ok a, s')
   | (Err e, _, _) => (Err e, s)
   end.
+
+(** the fault positions (0-based) at which the run reports success although
+    the failing call lies strictly inside the writes of the fault-free run:
+    the model's own search for a failing input *)
+Definition bad_positions (T : table) {A} (p : prog A) (s : kv) : list nat :=
+  filter (fun k => is_ok (fst (fst (run T p s O (Some k))))) (seq 0 (writes T p s)).
 
 (** An operation of a manager with in-memory state [Mem]: the disk part may
     read the memory; the memory effect is a pure function applied after the
@@ -123,35 +291,77 @@ Record op (Mem R : Type) := {
 Arguments disk {Mem R} o.
 Arguments mem_after {Mem R} o.
 
-Definition run_op {Mem R} (o : op Mem R) (m : Mem) (s : kv) (f : option nat)
+Definition run_op (T : table) {Mem R} (o : op Mem R) (m : Mem) (s : kv) (f : option nat)
   : result R * Mem * kv :=
-  match update (disk o m) s f with
+  match update T (disk o m) s f with
   | (Ok r, s') => (Ok r, mem_after o r m, s')
   | (Err e, s') => (Err e, m, s')
   end.
 
-(** The shape of the code where memory is updated EARLY (DESIGN section 6: S4,
-    S10, S11): a list of steps, each a disk part followed at once by its
-    memory effect.  When a later step fails, the effects of the earlier steps
-    stay in memory although the transaction is rolled back. *)
-Definition eager_step (Mem : Type) : Type := (Mem -> prog unit) * (Mem -> Mem).
+(** Several manager calls inside ONE database transaction, as the code is
+    written.  Each call has one of three shapes:
+      AfterOwnWrites   the memory effect is applied as soon as the call's own
+                       disk part succeeded (RenameAccount, SetSyncedTo, ...);
+      AtCommit         it is registered with the transaction and applied when
+                       the transaction commits (nextAddresses' OnCommit);
+      BeforeOwnWrites  it is applied before the call's writes (SetBirthday).
+    When a LATER call of the transaction fails, the effects already applied
+    stay in memory although the store is rolled back: the known eager-memory
+    findings. *)
+Inductive shape := AfterOwnWrites | AtCommit | BeforeOwnWrites.
 
-Fixpoint run_eager {Mem} (steps : list (eager_step Mem)) (m : Mem) (s : kv) (n : nat)
-  (f : option nat) : result unit * Mem * kv * nat :=
+(** [st_disk] answers a list of keys (what it wrote: the memory effect of
+    Extend / Next needs it); a BeforeOwnWrites effect cannot depend on it and
+    gets []. *)
+Record step (Mem : Type) := {
+  st_shape : shape;
+  st_disk : Mem -> prog (list key);
+  st_mem : list key -> Mem -> Mem
+}.
+Arguments st_shape {Mem} s.
+Arguments st_disk {Mem} s.
+Arguments st_mem {Mem} s.
+
+Definition mem_before {Mem} (st : step Mem) (m : Mem) : Mem :=
+  match st_shape st with BeforeOwnWrites => st_mem st [] m | _ => m end.
+Definition mem_done {Mem} (st : step Mem) (r : list key) (m0 : Mem) : Mem :=
+  match st_shape st with AfterOwnWrites => st_mem st r m0 | _ => m0 end.
+
+(** the disk side of the whole transaction as ONE program of the language
+    (the memory the disk parts read is threaded through as the code does) *)
+Fixpoint steps_prog {Mem} (steps : list (step Mem)) (m : Mem) : prog unit :=
   match steps with
-  | [] => (Ok tt, m, s, n)
-  | (d, e) :: rest =>
-    match run (d m) s n f with
-    | (Ok _, s1, n1) => run_eager rest (e m) s1 n1 f
-    | (Err x, s1, n1) => (Err x, m, s1, n1)
+  | [] => Ret tt
+  | st :: rest =>
+    r <- st_disk st (mem_before st m) ;;
+    steps_prog rest (mem_done st r (mem_before st m))
+  end.
+
+(** the same with the memory made explicit: result, memory, effects pending
+    until commit, store, call counter, index of the step that failed *)
+Fixpoint run_steps (T : table) {Mem} (steps : list (step Mem)) (idx : nat) (m : Mem)
+  (pend : list (Mem -> Mem)) (s : kv) (n : nat) (f : option nat)
+  : result unit * Mem * list (Mem -> Mem) * kv * nat * nat :=
+  match steps with
+  | [] => (Ok tt, m, pend, s, n, idx)
+  | st :: rest =>
+    let m0 := mem_before st m in
+    match run T (st_disk st m0) s n f with
+    | (Ok r, s1, n1) =>
+      run_steps T rest (S idx) (mem_done st r m0)
+                (match st_shape st with AtCommit => pend ++ [st_mem st r] | _ => pend end) s1 n1 f
+    | (Err x, s1, n1) => (Err x, m0, pend, s1, n1, idx)
     end
   end.
 
-Definition update_eager {Mem} (steps : list (eager_step Mem)) (m : Mem) (s : kv) (f : option nat)
-  : result unit * Mem * kv :=
-  match run_eager steps m s O f with
-  | (Ok _, m', s', _) => (Ok tt, m', s')
-  | (Err x, m', _, _) => (Err x, m', s)   (* the store is rolled back, the memory is not *)
+(** the transaction around the steps; on success the pending effects are
+    applied in order; on error the store is rolled back, the memory is not.
+    Last component: index of the failing step. *)
+Definition update_steps (T : table) {Mem} (steps : list (step Mem)) (m : Mem) (s : kv) (f : option nat)
+  : result unit * Mem * kv * nat :=
+  match run_steps T steps O m [] s O f with
+  | (Ok _, m', pend, s', _, i) => (Ok tt, fold_left (fun a g => g a) pend m', s', i)
+  | (Err x, m', _, _, _, i) => (Err x, m', s, i)
   end.
 
 (** ** Store primitives *)
@@ -193,7 +403,7 @@ Definition delete_bucket (b : Z) : prog unit :=
 Definition b2z (b : bool) : Z := if b then 1 else 0.
 Fixpoint seqZ_from (start : Z) (len : nat) : list Z :=
   match len with O => [] | S n => start :: seqZ_from (start + 1) n end.
-Definition indices {X} (l : list X) : list Z := seqZ_from 0 (length l).
+Definition indices {X} (l : list X) : list Z := seqZ_from 0 (List.length l).
 Fixpoint indexed_from {X} (i : Z) (l : list X) : list (Z * X) :=
   match l with [] => [] | x :: l' => (i, x) :: indexed_from (i + 1) l' end.
 Definition indexed {X} (l : list X) : list (Z * X) := indexed_from 0 l.
